@@ -4,6 +4,7 @@ package world
 // user actions (incl. the real kubectl-eds command bodies), node churn, clock ticks.
 
 import (
+	"k8s.io/apimachinery/pkg/util/intstr"
 	"bytes"
 	"context"
 	"fmt"
@@ -229,6 +230,19 @@ func Apply(l *Live, s *State, ev Event, tpls Templates) *StepOut {
 		tp := tpls[ev.B]
 		e.Spec.Template = *tp.DeepCopy()
 		must(in.Update(ctx, e))
+	case "editSpec": // B = "drop-canary" | "canary-replicas=<int-or-percent>"
+		e := &v1.ExtendedDaemonSet{}
+		must(in.Get(ctx, types.NamespacedName{Namespace: ns, Name: name}, e))
+		switch {
+		case ev.B == "drop-canary":
+			e.Spec.Strategy.Canary = nil
+		case strings.HasPrefix(ev.B, "canary-replicas=") && e.Spec.Strategy.Canary != nil:
+			v := intstr.Parse(strings.TrimPrefix(ev.B, "canary-replicas="))
+			e.Spec.Strategy.Canary.Replicas = &v
+		default:
+			panic("unknown spec edit " + ev.B)
+		}
+		must(in.Update(ctx, e))
 	case "annotate": // B = "key=value" or "key-" (remove); key without the domain prefix
 		e := &v1.ExtendedDaemonSet{}
 		must(in.Get(ctx, types.NamespacedName{Namespace: ns, Name: name}, e))
@@ -254,7 +268,12 @@ func Apply(l *Live, s *State, ev Event, tpls Templates) *StepOut {
 	case "taint": // B = effect
 		n := &corev1.Node{}
 		must(in.Get(ctx, types.NamespacedName{Name: ev.A}, n))
-		n.Spec.Taints = append(n.Spec.Taints, corev1.Taint{Key: "verif/taint", Value: "x", Effect: corev1.TaintEffect(ev.B)})
+		if ev.B == "cordon" {
+			n.Spec.Taints = append(n.Spec.Taints, corev1.Taint{Key: "node.kubernetes.io/unschedulable", Effect: corev1.TaintEffectNoSchedule})
+			n.Spec.Unschedulable = true
+		} else {
+			n.Spec.Taints = append(n.Spec.Taints, corev1.Taint{Key: "verif/taint", Value: "x", Effect: corev1.TaintEffect(ev.B)})
+		}
 		must(in.Update(ctx, n))
 	case "untaint":
 		n := &corev1.Node{}
